@@ -357,7 +357,10 @@ func (prop) Run(in json.RawMessage, scratch string) core.Result {
 		if pres == "types" {
 			tt, err := ty.typesType(u.pkg)
 			if err != nil {
-				res.GoViolations = []string{"harness: " + err.Error()}
+				// the generator produced an expression that is not a Go type (e.g. a constraint is not satisfied):
+				// nothing to render, nothing to judge
+				res.Tags = append(res.Tags, "not-a-type")
+				res.Observed = map[string]string{"skipped": err.Error()}
 				return res
 			}
 			x, view = tt, typesx.FromTType(tt)
